@@ -5,9 +5,13 @@
 //	argsByRef{Call,Bin,Builtin}    what the three sites keep of an argument: `val[i+1] = v(f)` (the frame slot
 //	                               itself: by reference) or `val[i+1] = copyDeferArg(v(f))` with copyDeferArg
 //	                               ending in `c := reflect.New(v.Type()).Elem(); c.Set(v); return c` (a copy)
+//	spread{Call,Bin}               the defer branches of call / callBin replace the callee by deferCallSlice(val[0]) when the
+//	                               deferred call is written with an ellipsis (and deferCallSlice calls fn.CallSlice(args))
 //	exitSteps / ifSteps            the statements of the function literal deferred by runCfg, in order
 //	deferredProtected              the loop over f.deferred calls `runDeferred(f, val)` and runDeferred is
 //	                               `defer func() { if r := recover(); r != nil { f.recovered = r } }(); val[0].Call(val[1:])`
+//	                               or the same with `callVariadic(val[0], val[1:])`, callVariadic being v.Call(in) except for the
+//	                               nil slice handed to a variadic function called without variadic arguments
 //	                               (false: the loop body is `val[0].Call(val[1:])`)
 //	recoverReadsAnc / recoverClears  _recover: which field is read, and that it is set to nil afterwards
 //	panicBoxed                     _panic: `panic(value(f))` (the reflect.Value: true) or `panic(x.Interface())` (false)
@@ -108,7 +112,81 @@ func helperProtects(fd *ast.FuncDecl) bool {
 		len(ifs.Body.List) != 1 || str(ifs.Body.List[0]) != "f.recovered = r" {
 		return false
 	}
-	return str(fd.Body.List[1]) == "val[0].Call(val[1:])"
+	switch str(fd.Body.List[1]) {
+	case "val[0].Call(val[1:])":
+		return true
+	case "callVariadic(val[0], val[1:])":
+		return callVariadicIsCall
+	}
+	return false
+}
+
+// callVariadicIsCall: callVariadic(v, in) is exactly
+// `if t := v.Type(); t.IsVariadic() && len(in) == t.NumIn()-1 { return v.CallSlice(append(in, reflect.Zero(t.In(len(in))))) }; return v.Call(in)`
+// — v.Call(in), except that a variadic function called without variadic arguments gets a nil slice. Set in main.
+var callVariadicIsCall bool
+
+func callVariadicShape(fd *ast.FuncDecl) bool {
+	if fd == nil || fd.Body == nil || len(fd.Body.List) != 2 {
+		return false
+	}
+	if ps := fd.Type.Params; ps == nil || len(ps.List) != 2 || len(ps.List[0].Names) != 1 || len(ps.List[1].Names) != 1 ||
+		ps.List[0].Names[0].Name != "v" || str(ps.List[0].Type) != "reflect.Value" ||
+		ps.List[1].Names[0].Name != "in" || str(ps.List[1].Type) != "[]reflect.Value" {
+		return false
+	}
+	ifs, ok := fd.Body.List[0].(*ast.IfStmt)
+	if !ok || ifs.Else != nil || ifs.Init == nil || str(ifs.Init) != "t := v.Type()" ||
+		str(ifs.Cond) != "t.IsVariadic() && len(in) == t.NumIn()-1" || len(ifs.Body.List) != 1 ||
+		str(ifs.Body.List[0]) != "return v.CallSlice(append(in, reflect.Zero(t.In(len(in)))))" {
+		return false
+	}
+	return str(fd.Body.List[1]) == "return v.Call(in)"
+}
+
+// deferCallSliceShape: deferCallSlice(fn) ends in
+// `return reflect.MakeFunc(reflect.FuncOf(in, out, false), func(args []reflect.Value) []reflect.Value { return fn.CallSlice(args) })`.
+func deferCallSliceShape(fd *ast.FuncDecl) bool {
+	if fd == nil || fd.Body == nil || len(fd.Body.List) == 0 {
+		return false
+	}
+	if ps := fd.Type.Params; ps == nil || len(ps.List) != 1 || len(ps.List[0].Names) != 1 || ps.List[0].Names[0].Name != "fn" {
+		return false
+	}
+	return str(fd.Body.List[len(fd.Body.List)-1]) ==
+		"return reflect.MakeFunc(reflect.FuncOf(in, out, false), func(args []reflect.Value) []reflect.Value { return fn.CallSlice(args) })"
+}
+
+// spreadFact: "true" when the defer branch `site` replaces the callee by deferCallSlice(val[0]) under the condition
+// `cond` (the deferred call is written with an ellipsis) and deferCallSlice has the recognised shape; "false" when
+// the branch never mentions deferCallSlice.
+func spreadFact(site ast.Node, what, cond string, shape bool) string {
+	if site == nil {
+		return unrec(what + ": the defer branch was not found")
+	}
+	found, mentions := "", false
+	ast.Inspect(site, func(m ast.Node) bool {
+		switch x := m.(type) {
+		case *ast.Ident:
+			if x.Name == "deferCallSlice" {
+				mentions = true
+			}
+		case *ast.IfStmt:
+			if x.Init == nil && x.Else == nil && len(x.Body.List) == 1 && str(x.Body.List[0]) == "val[0] = deferCallSlice(val[0])" {
+				found = str(x.Cond)
+			}
+		}
+		return true
+	})
+	switch {
+	case !mentions:
+		return "false"
+	case found == cond && shape:
+		return "true"
+	case found == cond:
+		return unrec(what + " uses deferCallSlice, whose shape was not recognised")
+	}
+	return unrec(what + " uses deferCallSlice in an unrecognised way (condition `" + found + "`)")
 }
 
 // stepOf classifies one statement of runCfg's deferred function.
@@ -286,7 +364,7 @@ func main() {
 		}
 		hashes := "[" + strings.Join([]string{
 			strings.Trim(common.HashTable(fsetRun, run, [][2]string{{"", "_recover"}, {"", "_panic"},
-				{"", "genBuiltinDeferWrapper"}, {"", "genFunctionWrapper"}, {"", "copyDeferArg"}, {"", "runDeferred"}, {"", "getFunc"}}), "[]"),
+				{"", "genBuiltinDeferWrapper"}, {"", "genFunctionWrapper"}, {"", "copyDeferArg"}, {"", "runDeferred"}, {"", "callVariadic"}, {"", "deferCallSlice"}, {"", "getFunc"}}), "[]"),
 			strings.Trim(common.HashTable(fsetProg, prog, [][2]string{{"Interpreter", "Execute"}}), "[]"),
 			strings.Trim(common.HashTable(fsetInterp, interpFile, [][2]string{{"", "newFrame"}, {"frame", "clone"}}), "[]"),
 			fmt.Sprintf("(%s, %s)", common.LeanStr("runCfg: deferred function"), common.LeanStr(blockHash(firstDefer(common.FindFunc(run, "", "runCfg"))))),
@@ -298,6 +376,12 @@ func main() {
 		pCall := prependFact(common.FindFunc(run, "", "call"), "call")
 		pBin := prependFact(common.FindFunc(run, "", "callBin"), "callBin")
 		pBuiltin := prependFact(common.FindFunc(run, "", "genBuiltinDeferWrapper"), "genBuiltinDeferWrapper")
+
+		// --- deferred calls written with an ellipsis
+		callVariadicIsCall = callVariadicShape(common.FindFunc(run, "", "callVariadic"))
+		sliceShape := deferCallSliceShape(common.FindFunc(run, "", "deferCallSlice"))
+		spreadCall := spreadFact(deferBranchOfCall(common.FindFunc(run, "", "call")), "call", "hasVariadicArgs", sliceShape)
+		spreadBin := spreadFact(deferClauseOfCallBin(common.FindFunc(run, "", "callBin")), "callBin", "n.action == aCallSlice", sliceShape)
 
 		// --- how the three sites store the arguments in the deferred entry
 		copies := helperCopies(common.FindFunc(run, "", "copyDeferArg"))
@@ -347,7 +431,7 @@ func main() {
 		case len(loopBodies) == 1 && loopBodies[0] == "runDeferred" && helperProtects(common.FindFunc(run, "", "runDeferred")):
 			protected = "true"
 		case len(loopBodies) == 1 && loopBodies[0] == "runDeferred":
-			protected = unrec("runDeferred is not `defer func() { if r := recover(); r != nil { f.recovered = r } }(); val[0].Call(val[1:])`")
+			protected = unrec("runDeferred is not `defer func() { if r := recover(); r != nil { f.recovered = r } }(); <val[0].Call(val[1:]) or callVariadic(val[0], val[1:]) with callVariadic of the recognised shape>`")
 		default:
 			protected = unrec(fmt.Sprintf("runCfg: %d recognised loops over f.deferred", len(loopBodies)))
 		}
@@ -534,6 +618,8 @@ def facts : UnwindFacts :=
     argsByRefCall := %s,
     argsByRefBin := %s,
     argsByRefBuiltin := %s,
+    spreadCall := %s,
+    spreadBin := %s,
     exitSteps := %s,
     ifSteps := %s,
     deferredProtected := %s,
@@ -546,7 +632,7 @@ def facts : UnwindFacts :=
     executeRecovers := %s,
     executeCarriesValue := %s }
 end YaegiVerif.Generated.C06
-`, common.LeanStrList(notes), hashes, pCall, pBin, pBuiltin, refCall, refBin, refBuiltin, stepList(exitSteps), stepList(ifSteps), protected, readsAnc, clears, panicBoxed,
+`, common.LeanStrList(notes), hashes, pCall, pBin, pBuiltin, refCall, refBin, refBuiltin, spreadCall, spreadBin, stepList(exitSteps), stepList(ifSteps), protected, readsAnc, clears, panicBoxed,
 			panicDeferrable, ancClone, locksDefiner, execRecovers, execCarries), nil
 	})
 }
